@@ -177,3 +177,12 @@ Definition ints_of (e : expr) : list Z := match e with Node _ i _ _ => i | _ => 
 Definition is_op (o : opk) (e : expr) : bool := match e with Node op _ _ _ => opk_eqb op o | _ => false end.
 Definition bvv_val (e : expr) : option Z := match e with BVVe v _ => Some v | _ => None end.
 Definition is_bvv (e : expr) : bool := match e with BVVe _ _ => true | _ => false end.
+
+(* free variables: (is_bool, id) *)
+Fixpoint fvars (e : expr) : list (bool * Z) :=
+  match e with
+  | BVS n _ => [(false, n)]
+  | BoolS n => [(true, n)]
+  | BVVe _ _ | BoolVe _ => []
+  | Node _ _ args _ => flat_map fvars args
+  end.
